@@ -126,7 +126,7 @@ fn worker_main(path: String, scratch: String) {
 }
 
 /// Runs the inputs in worker processes, restarting after a hang or an abort.
-fn run_in_workers(inputs: &[Input], limit: Duration, tag: &str) -> Vec<Res> {
+fn run_in_workers(inputs: &[Input], limit: Duration, tag: &str, mem_kib: u64) -> Vec<Res> {
     let exe = std::env::current_exe().expect("current exe");
     let dir = std::env::var("VERIF_WORK").unwrap_or_else(|_| std::env::temp_dir().to_string_lossy().into_owned());
     let scratch = format!("{}/scratch-{}-{}", dir, std::process::id(), tag);
@@ -143,7 +143,7 @@ fn run_in_workers(inputs: &[Input], limit: Duration, tag: &str) -> Vec<Res> {
         }
         let mut child = Command::new("sh")
             .arg("-c")
-            .arg(format!("ulimit -v {}; exec \"$0\" \"$@\"", WORKER_MEM_KIB))
+            .arg(format!("ulimit -v {}; exec \"$0\" \"$@\"", mem_kib))
             .arg(&exe)
             .arg("--worker")
             .arg(&path)
@@ -209,7 +209,7 @@ fn run_parallel(inputs: &[Input], limit: Duration, phase: &str) -> Vec<Res> {
         let tag = format!("{}{}", phase, w);
         handles.push(std::thread::spawn(move || {
             let ins: Vec<Input> = part.iter().map(|(_, i)| i.clone()).collect();
-            let rs = run_in_workers(&ins, limit, &tag);
+            let rs = run_in_workers(&ins, limit, &tag, WORKER_MEM_KIB);
             part.into_iter().map(|(k, _)| k).zip(rs).collect::<Vec<_>>()
         }));
     }
@@ -1079,7 +1079,15 @@ fn main() {
             inputs.push(Input { family: "builtin:probe".into(), ..inp.clone() });
         }
     }
-    let results = run_parallel(&inputs, limit, "r");
+    // the arrays with heap-owning elements are decided under a small, fixed address-space limit of their own and a
+    // generous time limit: what they do must not depend on how much memory or speed the machine happens to have
+    // (under the ordinary worker limit a slow machine is still allocating when the time limit strikes)
+    let owned: Vec<Input> = inputs.iter().filter(|i| i.family == "huge-owned-elements").cloned().collect();
+    inputs.retain(|i| i.family != "huge-owned-elements");
+    let mut results = run_parallel(&inputs, limit, "r");
+    let owned_results = run_in_workers(&owned, Duration::from_secs(120), "owned", 1 << 20);
+    inputs.extend(owned);
+    results.extend(owned_results);
     let t_run = t0.elapsed();
 
     // classification
